@@ -19,8 +19,12 @@
                             Yule-Walker equations are solved by (a, P)) has lags 0..p equal to the biased
                             sample autocorrelation
      aryule_stable          every root z, in the field, of z^p + a_1 z^(p-1) + .. + a_p has |z|^2 < 1
-                            (over the complex numbers: all roots; over the Gaussian rationals: the roots
-                            that are Gaussian rationals — the abstract theorem covers both)
+     aryule_stable_ext      the same for every root in any ordered *-field K the data's field maps into by a
+                            conj-compatible ring homomorphism (data in F, roots in K); axiom-free
+     aryule_stable_complex  data in the Gaussian rationals (the instance the correspondence check executes):
+                            EVERY complex root has Cmod z < 1   (K = Coquelicot's C; uses the standard-library
+                            axioms of the real numbers, printed below)
+     aryule_stable_C        data in C itself: every complex root has Cmod z < 1 (same axioms)
      aryule_is_ls           the least-squares normal equations on corrmtx(x, p, 'autocorrelation') are the
                             Yule-Walker equations: aryule's a solves them, is their only monic solution,
                             and attains the minimum residual energy, which equals N * P
@@ -28,14 +32,13 @@
                             P * N / (N-1)  (the code divides the lag sums by m-1)
      aryule_errors          norm not in {biased, unbiased}  or  order >= N  => AssertionError
    NOT PROVED
-     - stability for roots outside the field of the data when the field is not algebraically closed (an
-       instance of the abstract theorem at the complex numbers gives the full statement; that instance is
-       not built here): search with numpy.roots;
+     - nothing of the statement's clauses in exact arithmetic; rounding of the binary64 code is outside the
+       theorems (correspondence + search with 1e-9*kappa tolerances);
      - pyule's PSD (arma2psd: FFT) — only its .ar/.reflection are modelled; lpc for complex data takes
        real(R) and is outside the property; lpc's zero-padding branch (N > m-1) is modelled, not proved. *)
 Require Import Spectrum.Theory.Ops Spectrum.Theory.Sum Spectrum.Theory.Vec Spectrum.Theory.Order
                Spectrum.Model.Levinson Spectrum.Model.Corr Spectrum.Model.Yule
-               Spectrum.Proofs.LevinsonTheory Spectrum.Proofs.CorrTheory Spectrum.Proofs.YulePD Spectrum.Proofs.YuleTheory
+               Spectrum.Proofs.LevinsonTheory Spectrum.Proofs.CorrTheory Spectrum.Proofs.YulePD Spectrum.Proofs.YuleTheory Spectrum.Proofs.YuleExt
                Spectrum.Instances.QcC Spectrum.Instances.QcCOrd.
 From Coq Require Import QArith Qcanon.
 
@@ -128,6 +131,18 @@ Theorem aryule_errors (x : list F) (p : nat) (nm : cnorm) (allow : bool) :
 Proof. exact (aryule_errors_thm x p nm allow). Qed.
 End C12.
 
+Section C12ext.
+Context {F : Type} {OF : Ops F} {L : Laws OF} {OL : OrdLaws OF}.
+Context {K : Type} {OK : Ops K} {LK : Laws OK} {OLK : OrdLaws OK}.
+Local Open Scope F_scope.
+Theorem aryule_stable_ext (phi : F -> K) (x : list F) (p : nat) (allow : bool) (a : list F) (P : F) (k : list F) (z : K) :
+  phi 0 = 0 -> phi 1 = 1 -> (forall u v, phi (u + v) = phi u + phi v) -> (forall u v, phi (u * v) = phi u * phi v) ->
+  (forall u, phi (conj u) = conj (phi u)) ->
+  (exists n, nthF x n <> 0) -> aryule x p Biased allow = inr (a, P, k) ->
+  sumf (S p) (fun j => phi (afun a j) * fpow z (p - j)) = 0 -> lt (nrm2 z) 1.
+Proof. intros h0 h1 ha hm hc. exact (aryule_stable_ext_thm phi (mkHom phi h0 h1 ha hm hc) x p allow a P k z). Qed.
+End C12ext.
+
 (* non-vacuity on the executed instance (Gaussian rationals, qcc_ord : OrdLaws qcc_ops) *)
 Definition ex_x : list QcC := [cz (1,0) (1,0); cz (2,0) (0,0); cz (-1,0) (1,-1); cz (0,0) (-3,0); cz (1,-1) (1,0)]%Z.
 Definition ex_xr : list QcC := [cz (1,0) (0,0); cz (2,0) (0,0); cz (-1,0) (0,0); cz (3,0) (0,0); cz (1,-1) (0,0)]%Z.
@@ -152,6 +167,25 @@ Proof. vm_compute. reflexivity. Qed.
 Example aryule_order_error : @aryule _ qcc_ops ex_x 5 Biased true = inl YAssert.
 Proof. vm_compute. reflexivity. Qed.
 
+(* ---------- all complex roots: instances at Coquelicot's C (standard-library real-number axioms) ---------- *)
+Require Import Spectrum.Proofs.YuleExt Spectrum.Instances.Cplx_C12 Spectrum.Proofs.YuleComplex.
+From Coq Require Import Reals.
+From Coquelicot Require Import Complex.
+
+Theorem aryule_stable_complex (x : list QcC) (p : nat) (allow : bool) (a : list QcC) (P : QcC) (k : list QcC) (z : C) :
+  (exists n, nthF (OF:=qcc_ops) x n <> zero (Ops:=qcc_ops)) ->
+  aryule (OF:=qcc_ops) x p Biased allow = inr (a, P, k) ->
+  sumf (OF:=c_ops) (S p) (fun j => Cmult (qcc_to_c (afun (OF:=qcc_ops) a j)) (fpow (OF:=c_ops) z (p - j))) = RtoC 0 ->
+  (Cmod z < 1)%R.
+Proof. exact (aryule_stable_complex_thm x p allow a P k z). Qed.
+
+Theorem aryule_stable_C (x : list C) (p : nat) (allow : bool) (a : list C) (P : C) (k : list C) (z : C) :
+  (exists n, nthF (OF:=c_ops) x n <> RtoC 0) ->
+  aryule (OF:=c_ops) x p Biased allow = inr (a, P, k) ->
+  sumf (OF:=c_ops) (S p) (fun j => Cmult (afun (OF:=c_ops) a j) (fpow (OF:=c_ops) z (p - j))) = RtoC 0 ->
+  (Cmod z < 1)%R.
+Proof. exact (aryule_stable_C_thm x p allow a P k z). Qed.
+
 Print Assumptions levinson_pd.
 Print Assumptions biased_acorr_pd.
 Print Assumptions aryule_valid.
@@ -161,3 +195,6 @@ Print Assumptions aryule_stable.
 Print Assumptions aryule_is_ls.
 Print Assumptions lpc_same_coefficients.
 Print Assumptions aryule_errors.
+Print Assumptions aryule_stable_ext.
+Print Assumptions aryule_stable_complex.
+Print Assumptions aryule_stable_C.
